@@ -201,6 +201,13 @@ def is_subseq(child, parent):
     return all(any(x == y for y in it) for x in child)
 
 
+def fresh(seq):
+    """Elements that are EQUAL to those of `seq` but are not the same objects (tuples built at run time), so
+    that `is` in place of `==` shows: the property is about sequences of (distinct) elements compared by
+    equality; small ints and interned strings are identical whenever they are equal."""
+    return [(x,) for x in seq]
+
+
 def check_seq_cases(ctx, res, cases):
     """child -> mask -> child (property when child is a subsequence of a
     duplicate-free parent); model tie on everything."""
@@ -212,7 +219,8 @@ def check_seq_cases(ctx, res, cases):
     impl_masks = []
     for i, c in enumerate(cases):
         parent, child = c["parent"], c["child"]
-        m = call(mask_from_subseq, child, parent)
+        # every other case: child and parent hold equal but distinct objects
+        m = call(mask_from_subseq, fresh(child), fresh(parent)) if i % 2 else call(mask_from_subseq, child, parent)
         impl_masks.append(m)
         back_reqs.append({"op": "seq_from", "mask": m if isinstance(m, int) else 0, "parent": parent})
     backs = ctx.driver.parallel(back_reqs)
@@ -341,7 +349,7 @@ def check_bridge_cases(ctx, res, cases):
     outs = ctx.driver.parallel(reqs)
     for c, lspec in zip(cases, outs):
         root, parent, child, edges = c["root"], c["parent"], c["child"], c["edges"]
-        cm = call(mask_from_subseq, child, root)
+        cm = call(mask_from_subseq, fresh(child), fresh(root))
         pm = call(mask_from_subseq, parent, root)
         impl = call(subseq_segment_dist, cm, pm, edges) if isinstance(cm, int) and isinstance(pm, int) else cm
         pattern = [1 if x in child else 0 for x in parent]
@@ -421,7 +429,7 @@ def replay(ctx, data):
         exp = (spec_dist if case["child"] else recorded_zero_)(case["child"], case["parent"], case["edges"])
         return impl == exp, f"impl={impl} spec={exp}"
     if kind == "seq":
-        m = call(mask_from_subseq, case["child"], case["parent"])
+        m = call(mask_from_subseq, fresh(case["child"]), fresh(case["parent"]))  # equal, not identical, objects
         back = call(subseq_from_mask, m, case["parent"]) if isinstance(m, int) else m
         comp = call(subseq_complete, case["parent"])
         ok = back == case["child"] and isinstance(m, int) and 0 <= m <= comp
@@ -434,7 +442,7 @@ def replay(ctx, data):
         ok = isinstance(child, list) and is_subseq(child, case["parent"]) and back == case["mask"]
         return ok, f"child={child} back={back}"
     if kind == "bridge":
-        cm = mask_from_subseq(case["child"], case["root"])
+        cm = mask_from_subseq(fresh(case["child"]), fresh(case["root"]))
         pm = mask_from_subseq(case["parent"], case["root"])
         impl = call(subseq_segment_dist, cm, pm, case["edges"])
         exp = spec_runs([1 if x in case["child"] else 0 for x in case["parent"]], case["edges"])
